@@ -26,8 +26,61 @@ func init() {
 	}
 }
 
+// c09Envelope: the message VerifyHashEnvelope hands back is a decoded
+// message like any other - relayed untouched it reproduces the envelope it
+// was decoded from, and it still verifies.
+func c09Envelope(r *Run) {
+	t := r.T
+	key := pickCheapKey(t)
+	ha := []int64{refcose.AlgSHA256, refcose.AlgSHA384, refcose.AlgSHA512}[t.Choose(3, "c09.env.hash")]
+	a := key.Alg
+	layer := envelopeSafe(genLayer(t, LayerOpts{MaxExtra: 3, Alg: &a, NoCrit: true}))
+	layer.Prot = append(layer.Prot, KV{refcbor.Int(258), refcbor.Int(ha)})
+	if t.Bool(1, 2, "c09.env.ct") {
+		layer.Prot = append(layer.Prot, KV{refcbor.Int(259), genContentType(t)})
+	}
+	layer = dedupLayer(layer)
+	spec := &MsgSpec{Kind: refcose.KSign1Tagged, Layer: layer, Payload: t.Bytes(refcose.HashLen(ha), "c09.env.digest"), Key: key}
+	ent := NewEntropy(uint64(t.U32("entropy.seed")))
+	w := r.ForeignWire(t, spec, genKnobs(t), ent, false, 0, false)
+	r.Op("ISSUE", "hash envelope by the foreign peer: %s", spec)
+	r.Outcome("envelope-relay")
+	verifier := r.verifierFor(key, false)
+	var msg *cose.Sign1Message
+	var err error
+	r.Lib(func() { msg, err = cose.VerifyHashEnvelope(verifier, w.B) })
+	if err != nil || msg == nil {
+		r.Outcome("envelope-not-accepted") // C12's business
+		return
+	}
+	var out []byte
+	r.Lib(func() { out, err = msg.MarshalCBOR() })
+	r.Op("RELAY", "message returned by VerifyHashEnvelope -> %s", errTag(err))
+	r.Check()
+	if err != nil {
+		r.Fail("reencode-fails-with-raw-kept/envelope", "the message returned by VerifyHashEnvelope cannot be encoded again: %v\ninput: %s", err, hexShort(w.B))
+		return
+	}
+	want, perr := refcose.PredictReencode(refcose.KSign1Tagged, w.B)
+	if perr == nil && !bytes.Equal(out, want) {
+		r.Fail("reencoding-changes-header-bytes/envelope", "the message returned by VerifyHashEnvelope, relayed untouched, differs from the envelope in more than payload/signature heads\n input: %s\noutput: %s", hexShort(w.B), hexShort(out))
+		return
+	}
+	var verr error
+	r.Lib(func() { verr = msg.Verify(nil, verifier) })
+	if verr != nil {
+		r.Fail("reencoding-changes-verdict/envelope", "the message returned by VerifyHashEnvelope does not verify under the same verifier: %v\n%s", verr, hexShort(w.B))
+		return
+	}
+	r.Probe("envelope-relay-compared")
+}
+
 func scenarioC09(r *Run) {
 	t := r.T
+	if t.Bool(1, 12, "c09.envelope") {
+		c09Envelope(r)
+		return
+	}
 	ent := NewEntropy(uint64(t.U32("entropy.seed")))
 	so := SpecOpts{MaxExtra: 4, MaxSigner: 3, Cheap: true, BigOK: bigOK(r, "c09.big")}
 	if t.Bool(1, 6, "c09.manylabels") {
